@@ -93,8 +93,37 @@ func (c *Case) goEpilogue(v Variant) string {
 		codes = append(codes, codeExpr(t, "go"))
 	}
 	sb.WriteString("var vhCodes = []int{" + strings.Join(codes, ", ") + "}\n")
+	inner := []string{}
+	for _, k := range c.NestInput {
+		inner = append(inner, fmt.Sprint(k))
+	}
+	sb.WriteString("var vhInner = []int{" + strings.Join(inner, ", ") + "}\nvar vhDepth int\n")
+	nestCall := "PushContex()\n\tParserInit()\n\tfunc() {\n\t\tdefer func() { recover() }()\n\t\tParser(\"inner\")\n\t}()\n\tPopContex()"
+	if v.Object {
+		nestCall = "func() {\n\t\tdefer func() { recover() }()\n\t\tMakeParserContext().Parser(\"inner\")\n\t}()"
+	}
+	sb.WriteString(`
+// vhNest: a nested parse started from inside a semantic action (what PushContex/PopContex are for).
+// Its own events are not logged and its output is bracketed so that the harness can cut it out: the outer
+// parse must look as if nothing happened.
+func vhNest() {
+	if vhDepth > 0 {
+		return
+	}
+	vhDepth++
+	saveRed := vhRed
+	fmt.Printf("NESTBEGIN\n") // whatever the inner parse prints (its trace, if IsTrace is on) is cut out by the harness
+	` + nestCall + `
+	fmt.Printf("\nNESTEND\n")
+	vhRed = saveRed
+	vhDepth--
+}
+`)
 	sb.WriteString(`
 func vhLogR(i int) {
+	if vhDepth > 0 {
+		return
+	}
 	vhRed++
 	if vhRed > 20000 {
 		fmt.Printf("DIVERGE\n")
@@ -106,6 +135,12 @@ func vhLogR(i int) {
 func GetToken(input string, val *ValType, pos *int) int {
 	p := *pos
 	*pos = p + 1
+	if input == "inner" {
+		if p >= len(vhInner) {
+			return -1
+		}
+		return vhCodes[vhInner[p]]
+	}
 	if p >= len(vhToks) {
 		fmt.Printf("T %d -1\n", p)
 		return -1
@@ -273,6 +308,22 @@ var tagNames = []string{"ia", "ib", "st"}
 // tags to symbols and value-computing actions to rules.
 func Valuate(c *Case, r *rand.Rand, valued bool) {
 	c.Valued = valued
+	if len(c.Rules) > 0 && r.Intn(4) == 0 {
+		// one rule's action starts a nested parse (Go variants)
+		c.NestRule = 1 + r.Intn(len(c.Rules))
+		if s := randomSentence(c, r, 3); s != nil && len(s) <= 12 {
+			ord := map[string]int{}
+			for i, t := range c.Terminals() {
+				ord[t] = i + 1
+			}
+			for _, x := range s {
+				c.NestInput = append(c.NestInput, ord[x])
+			}
+		}
+		if r.Intn(3) == 0 && len(c.Terminals()) > 0 { // sometimes the inner input is not a sentence
+			c.NestInput = append(c.NestInput, 1+r.Intn(len(c.Terminals())))
+		}
+	}
 	if !valued {
 		for i := range c.Rules {
 			c.Rules[i].Act = Act{Kind: "log"}
